@@ -384,6 +384,10 @@ func c04Run(w *kernel.Worker, j *c04Job, rep *kernel.Report) (*Fail, error) {
 		byG    bool
 		single string
 		align  int64 // bin ... aligntime= (0: none)
+		win    [2]int64 // time window of the query ([0,0]: the whole range)
+		vgt    *float64 // search filter v > *vgt in front of the stats
+		geq    string   // search filter g=<value> (a dictionary-encoded column) in front of the stats
+		numericOnly bool // the query holds only count/sum/min/max/avg of the column
 	}
 	var qs []Q
 	var ds2 []qd
@@ -406,6 +410,16 @@ func c04Run(w *kernel.Worker, j *c04Job, rep *kernel.Report) (*Fail, error) {
 	for _, m := range c04Measures { // single-measure queries (pre-aggregated fast paths)
 		qs = append(qs, mkq("* | stats "+fmtMeasure(m, "v")))
 		ds2 = append(ds2, qd{kind: "stats", col: "v", single: c04Key(m, "v")})
+	}
+	// the purely numeric measures alone over the other column kinds too: a query of only such measures is answered
+	// from the pre-computed segment statistics where they exist
+	for _, col := range []string{"s", "ns", "x"} {
+		var ms []string
+		for _, m := range []string{"count", "sum", "min", "max", "avg"} {
+			ms = append(ms, fmtMeasure(m, col))
+		}
+		qs = append(qs, mkq("* | stats "+strings.Join(ms, ", ")))
+		ds2 = append(ds2, qd{kind: "stats", col: col, numericOnly: true})
 	}
 	for _, span := range []struct {
 		txt string
@@ -433,6 +447,36 @@ func c04Run(w *kernel.Worker, j *c04Job, rep *kernel.Report) (*Fail, error) {
 			t += " timestamp | stats count, sum(v) by timestamp"
 			qs = append(qs, mkq(t))
 			ds2 = append(ds2, qd{kind: "timechart", col: "v", span: span.ms, align: al})
+		}
+	}
+	// a search filter in front of the stats and a time window that begins / ends at any event's timestamp (so that it
+	// cuts inside blocks and segments in the multi-block layouts)
+	{
+		one := 1.0
+		for i := range model {
+			for k := i; k < len(model); k++ {
+				for _, gb := range [][]string{nil, {"g"}} {
+					var msV []string
+					for _, m := range c04Measures {
+						msV = append(msV, fmtMeasure(m, "v"))
+					}
+					t := "v>1 | stats " + strings.Join(msV, ", ")
+					if len(gb) > 0 {
+						t += " by g"
+					}
+					qs = append(qs, Q{Index: idx, Text: t, Start: model[i].TS, End: model[k].TS}) // no size given, as a client asking for an aggregate does
+					ds2 = append(ds2, qd{kind: "stats", col: "v", groups: gb, win: [2]int64{model[i].TS, model[k].TS}, vgt: &one})
+					// the same with an equality on a dictionary-encoded column as the filter
+					if gv, ok := model[0].Cols["g"]; ok && gv[0].Kind == "str" {
+						t2 := "g=" + gv[0].S + " | stats " + strings.Join(msV, ", ")
+						if len(gb) > 0 {
+							t2 += " by g"
+						}
+						qs = append(qs, Q{Index: idx, Text: t2, Start: model[i].TS, End: model[k].TS})
+						ds2 = append(ds2, qd{kind: "stats", col: "v", groups: gb, win: [2]int64{model[i].TS, model[k].TS}, geq: gv[0].S})
+					}
+				}
+			}
 		}
 	}
 	rs, err := runQueries(w, qs)
@@ -465,10 +509,38 @@ func c04Run(w *kernel.Worker, j *c04Job, rep *kernel.Report) (*Fail, error) {
 		if gclass == "by-sparse" || gclass == "by-mixed" {
 			numClass = gclass // grouping by a sparse / mixed-type key: one class per measure family
 		}
+		modelQ := model
+		if d.win != [2]int64{} || d.vgt != nil || d.geq != "" {
+			modelQ = nil
+			for _, m := range model {
+				if d.win != [2]int64{} && (m.TS < d.win[0] || m.TS > d.win[1]) { // both bounds inclusive
+					continue
+				}
+				if d.geq != "" {
+					gs, ok := m.Cols["g"]
+					if !ok || !strings.EqualFold(canonText(gs[0]), d.geq) {
+						continue
+					}
+				}
+				if d.vgt != nil {
+					vs, ok := m.Cols["v"]
+					if !ok {
+						continue
+					}
+					f, isNum := c04Num(vs[0])
+					if !isNum || f <= *d.vgt {
+						continue
+					}
+				}
+				modelQ = append(modelQ, m)
+			}
+			ctx += fmt.Sprintf(" window=[T0%+d,T0%+d]", d.win[0]-T0, d.win[1]-T0)
+			gclass = "window-filter-" + gclass
+		}
 		if d.kind == "stats" {
 			// expected groups
 			groups := map[string][]*MEvent{}
-			for _, m := range model {
+			for _, m := range modelQ {
 				var key []string
 				for _, g := range d.groups {
 					if vs, ok := m.Cols[g]; ok {
@@ -491,6 +563,13 @@ func c04Run(w *kernel.Worker, j *c04Job, rep *kernel.Report) (*Fail, error) {
 				}
 				seen[key] = true
 				evs, ok := groups[key]
+				if !ok && len(d.groups) == 0 && len(modelQ) == 0 {
+					// stats without group-by over nothing: the single row of an empty aggregate (count 0) is legitimate
+					if c, isInt := ObsInt(b.M["count(*)"]); isInt && c != 0 {
+						fs.Add("C04/count/"+gclass, ctx+fmt.Sprintf(": no event matches, count(*)=%d", c))
+					}
+					continue
+				}
 				if !ok {
 					fs.Add("C04/invented-group/"+gclass, ctx+fmt.Sprintf(": group %q does not occur in the data", b.G))
 					continue
@@ -591,6 +670,73 @@ func c04Run(w *kernel.Worker, j *c04Job, rep *kernel.Report) (*Fail, error) {
 		}
 		if counted != len(model) {
 			fs.Add("C04/timechart-partition", ctx+fmt.Sprintf(": %d of %d events fall in a listed bucket; buckets %s", counted, len(model), jstr(r.Measure)))
+		}
+	}
+	// the Elasticsearch-compatible API computes its aggregations inside the segment search (not in the processor chain):
+	// filter + terms aggregation with a sum, over every window
+	for i := range model {
+		for k := i; k < len(model); k++ {
+			body := fmt.Sprintf(`{"size":0,"query":{"bool":{"filter":[{"range":{"timestamp":{"gte":%d,"lte":%d}}},{"range":{"v":{"gt":1}}}]}},"aggs":{"by":{"terms":{"field":"g"},"aggs":{"s":{"sum":{"field":"v"}}}}}}`, model[i].TS, model[k].TS)
+			var hr httpRes
+			if err := w.Call("call", map[string]interface{}{"handler": "esSearch", "org": 0, "method": "POST", "uri": "/elastic/" + idx + "/_search", "body": body,
+				"userValues": map[string]string{"indexName": idx}}, &hr); err != nil {
+				return die(err)
+			}
+			rep.Eval(1)
+			ctx := fmt.Sprintf("dataset=%s layout=%v card=%d Elasticsearch _search: range v>1, terms aggregation on g with sum(v), window=[T0%+d,T0%+d]", j.Dataset, j.Layout.Bounds, j.Card, model[i].TS-T0, model[k].TS-T0)
+			var er struct {
+				Aggregations map[string]struct {
+					Buckets []map[string]interface{} `json:"buckets"`
+				} `json:"aggregations"`
+			}
+			if hr.Status != 200 || DecodeNum([]byte(hr.Body), &er) != nil {
+				fs.Add("C04/es-terms-agg/error", ctx+fmt.Sprintf(": http %d %s", hr.Status, trunc(hr.Body, 200)))
+				continue
+			}
+			wantN, wantS := map[string]int64{}, map[string]float64{}
+			for _, m := range model {
+				if m.TS < model[i].TS || m.TS > model[k].TS {
+					continue
+				}
+				vs, ok := m.Cols["v"]
+				if !ok {
+					continue
+				}
+				f, isNum := c04Num(vs[0])
+				gs, hasG := m.Cols["g"]
+				if !isNum || f <= 1 || !hasG {
+					continue
+				}
+				wantN[canonText(gs[0])]++
+				wantS[canonText(gs[0])] += f
+			}
+			gotN, gotS := map[string]int64{}, map[string]float64{}
+			for _, b := range er.Aggregations["by"].Buckets {
+				key := ""
+				if ks, ok := b["key"].([]interface{}); ok && len(ks) == 1 {
+					key = fmt.Sprint(ks[0])
+				} else {
+					key = fmt.Sprint(b["key"])
+				}
+				c, _ := ObsInt(b["doc_count"])
+				gotN[key] += c
+				if sm, ok := b["sum(v)"].(map[string]interface{}); ok {
+					f, _ := ObsFloat(sm["value"])
+					gotS[key] += f
+				}
+			}
+			for g, n := range wantN {
+				if gotN[g] != n {
+					fs.Add("C04/es-terms-agg/count", ctx+fmt.Sprintf(": group %s doc_count=%d, want %d (buckets %s)", g, gotN[g], n, trunc(hr.Body, 300)))
+				} else if !approxEq(gotS[g], wantS[g]) {
+					fs.Add("C04/es-terms-agg/sum", ctx+fmt.Sprintf(": group %s sum(v)=%v, want %v", g, gotS[g], wantS[g]))
+				}
+			}
+			for g, n := range gotN {
+				if _, ok := wantN[g]; !ok && n != 0 {
+					fs.Add("C04/es-terms-agg/invented-group", ctx+fmt.Sprintf(": group %s (doc_count %d) has no event in the window", g, n))
+				}
+			}
 		}
 	}
 	return fs.Result(), nil
